@@ -10,7 +10,7 @@ import vlib
 
 PID = "C08"
 FORMULAS = ["LockBeforeFin", "CrdAfterAll.Instances", "CrdAfterAll.Instances.RecreatedAfterList", "CrdAfterAll.Running", "StopAfterGone.Instances",
-            "StopAfterGone.Instances.RecreatedAfterList", "XrdFinalizer", "ClaimAfterXR", "NoDeadlock"]
+            "StopAfterGone.Instances.RecreatedAfterList", "XrdFinalizer", "ClaimAfterXR", "NoDeadlock", "UsageAfterUser"]
 QUICK = [("quick", 2200), ("quick_fg", 1300), ("quick_faults", 1300), ("quick_tp", 1300)]
 THOROUGH = [("quick", 98249), ("quick_fg", 101046), ("quick_faults", 60000), ("quick_tp", 60000), ("thorough", 120000), ("thorough_fg", 60000)]
 
@@ -53,6 +53,20 @@ def lockfin(ctx):
     return dict(states=mc["states"], transitions=mc["transitions"], scenarios=len(scs), runs=s["runs"], events=n, drift=s["drift"])
 
 
+def usage_rider(ctx):
+    """the composed-Usage clause: a composed Usage lets go of the used resource only after its using resource is gone
+    (spec/Usage.tla, formula UsageAfterUser of MonUsage.tla; the Usage module is C19's)"""
+    from checks import c19
+    sub = ctx.sub("usage")
+    s = c19.run_composed(sub, n=1500 if ctx.quick else 10 ** 7)
+    for v in sub.violations:
+        if v["formula"] == "UsageAfterUser":
+            ctx.violations.append(v)
+    cov = dict(sub.cov)
+    cov.pop("samples", None)
+    return cov
+
+
 def run(ctx):
     plan = QUICK if ctx.quick else THOROUGH
     scs, states, trans, emitted, consts = [], 0, 0, 0, {}
@@ -69,17 +83,19 @@ def run(ctx):
     consts["MCTeardown_witness.cfg"] = dict(violates=["Ordered"], states_to_violation=w["states"])
     chosen = regression() + scs
     lf = lockfin(ctx)
+    ur = usage_rider(ctx)
     s, nlines = drive_and_judge(ctx, chosen, shards=8 if ctx.quick else 14)
     ctx.cov.update(dict(
-        states=states + lf["states"], transitions=trans + lf["transitions"], traces_validated_against_impl=s["runs"] + lf["runs"],
-        samples=s["samples"][:2], model_runs=consts, lockfin_rider=lf,
+        states=states + lf["states"] + ur.get("states", 0), transitions=trans + lf["transitions"] + ur.get("transitions", 0),
+        traces_validated_against_impl=s["runs"] + lf["runs"] + ur.get("traces_validated_against_impl", 0),
+        samples=s["samples"][:2], model_runs=consts, lockfin_rider=lf, usage_rider=ur,
         schedules_emitted=emitted, schedules_replayed=s["scenarios"], steps=s["steps"], events=nlines, per_action_counts=s["counts"],
         drift=dict(steps_out_of_sync=s["drift"], runs_with_drift=s["drift_runs"]), monitor_formulas=FORMULAS, exhaustive=(emitted == len(scs)),
         checker_cmd="tlc MCTeardown (M,G) -> harness/drivers/teardown on /repo (T) -> tlc MonTeardown",
         rule="one schedule per model transition that ends a reconcile of any actor: interleavings of the real definition, offered, claim and XR "
              "reconcilers at call granularity with user deletions, Kubernetes CRD-instance cleanup and foreground GC steps, third-party finalizer "
              "removals and API errors at the modelled calls",
-        not_covered="the composed-Usage clause (UsageAfterUser) is judged by the Usage module (C19) as a rider",
+        riders="the package clause (LockBeforeFin) by spec/LockFin.tla; the composed-Usage clause (UsageAfterUser) by the Usage module (spec/Usage.tla, C19's)",
     ))
     ctx.assumptions += ["a Create that carries a resourceVersion is refused (API server rule) - this is what keeps a claim reconcile that read the XR from re-creating it",
                         "third parties rewriting owner references of the CRDs are outside the quantifier",
@@ -89,6 +105,11 @@ def run(ctx):
 def replay(ctx, path):
     with open(path) as f:
         sc = json.load(f)
+    if str(sc.get("id", "")).startswith("C19"):     # a scenario of the Usage rider
+        from checks import c19
+        c19.replay(ctx, path)
+        ctx.violations = [v for v in ctx.violations if v["formula"] == "UsageAfterUser"]
+        return
     if sc.get("rider") == "lockfin":
         binp = ctx.go_build("./drivers/teardown")
         trace = os.path.join(ctx.work, "trace.ndjson")
